@@ -26,3 +26,36 @@ package votecounter
 //@   ensures intersect: 2*q(N) - N > f(N)
 //@   ensures honest: N - f(N) >= q(N)
 //@   ensures third: 3*f(N) < N
+
+// ---- one ballot per validator and vote kind --------------------------------------------------------
+// A second vote of the same kind from the same validator changes nothing and is reported as such;
+// a first vote of that kind adds the validator's power to that kind only, and to the total only
+// on the validator's first ballot of any kind.
+//@ func (*ballotSet).add
+//@   props C12
+//@   arith int
+//@   requires b != nil && addr != nil && b.ballots != nil && voteType < 2
+//@   requires no_overflow: b.total + addrPower < 1<<64 && b.perVoteType[0] + addrPower < 1<<64 && b.perVoteType[1] + addrPower < 1<<64
+//@   modifies b.perVoteType, b.total
+//@   modifies maps
+//@   ensures duplicate: old(in(b.ballots, *addr) && b.ballots[*addr][voteType]) ==> !result && b.perVoteType[0] == old(b.perVoteType[0]) && b.perVoteType[1] == old(b.perVoteType[1]) && b.total == old(b.total)
+//@   ensures counted_once: !old(in(b.ballots, *addr) && b.ballots[*addr][voteType]) ==> result && b.perVoteType[voteType] == old(b.perVoteType[voteType]) + addrPower && b.perVoteType[1 - voteType] == old(b.perVoteType[1 - voteType])
+//@   ensures total_once: b.total == old(b.total) + (old(in(b.ballots, *addr)) ? 0 : addrPower)
+//@   ensures recorded: in(b.ballots, *addr) && b.ballots[*addr][voteType] && (old(in(b.ballots, *addr)) ==> b.ballots[*addr][1 - voteType] == old(b.ballots[*addr][1 - voteType]))
+//@   ensures others_untouched: forall a _A :: a != *addr ==> ((in(b.ballots, a) <==> old(in(b.ballots, a))) && b.ballots[a] == old(b.ballots[a]))
+
+// ---- thresholds follow the validator set of the height being started ----------------------------
+// Assumption on the validator set (DESIGN.md F6): its total power is positive and below 2^63.
+//@ func (Validators).TotalVotingPower
+//@   logged
+//@   ensures 1 <= result && result < 1<<63
+//@ func (*VoteCounter).StartNewHeight
+//@   props C12
+//@   arith int
+//@   requires v != nil && v.currentHeight < (1<<64) - 1 && v.futureMessages != nil
+//@   modifies v.currentHeight, v.totalVotingPower, v.faultyVotingPower, v.quorumVotingPower, v.roundData
+//@   modifies maps
+//@   assigns calls_TotalVotingPower
+//@   callsite TotalVotingPower@*: of_the_new_height: $1 == old(v.currentHeight) + 1
+//@   ensures height: v.currentHeight == old(v.currentHeight) + 1
+//@   ensures thresholds: v.faultyVotingPower == f(v.totalVotingPower) && v.quorumVotingPower == q(v.totalVotingPower)
